@@ -459,6 +459,14 @@ let do_c18 t =
       | k -> failwith ("bad behaviour " ^ k)) in
   "handler_ran=" ^ b01 (handler_ran std_hs_ok cfg b) ^ " bystanders=11 alive=1"
 
+(* ---------- C17: validateAddrPort with the library's answers as oracle bits ---------- *)
+let do_addrv t =
+  let a = next_hex t in
+  let b1 = next_bool t in let b2 = next_bool t in let b3 = next_bool t in let b4 = next_bool t in
+  match validate_addr { o_trim_ip = b1; o_resolves = b2; o_host_addr = b3; o_host_ip = b4 } a with
+  | Ok out -> "OK " ^ hex_of_bytes out
+  | Err -> "ERR" | Panic -> "PANIC"
+
 let dispatch kind t =
   match kind with
   | "convert" -> do_convert t
@@ -483,6 +491,7 @@ let dispatch kind t =
   | "life" -> do_life t
   | "wmodel" -> do_wmodel t
   | "c18run" -> do_c18 t
+  | "addrv" -> do_addrv t
   | k -> failwith ("unknown kind " ^ k)
 
 let () =
